@@ -34,7 +34,9 @@ class MergeSched:
             m = c.pending
             if c.role in self.plan:
                 if not self.armed[c.role]:
-                    if m.get("c") == "link" and (m.get("path2") or "").startswith("queue/todo/"):
+                    # the race starts at the injector's first publish-or-signal step, whichever the tree does first
+                    if (m.get("c") == "link" and (m.get("path2") or "").startswith("queue/todo/")) or \
+                            (m.get("c") == "open" and "lock/trigger" in (m.get("path") or "")):
                         self.armed[c.role] = True
                     else:
                         return c, "g"
